@@ -68,7 +68,8 @@ type OrderRun struct {
 	Order          []int          `json:"order"`
 	Errors         map[string]int `json:"errors,omitempty"` // error text -> count
 	WritesDuring   int            `json:"writesDuringOrder"`
-	Final          *State         `json:"final"`
+	Final          *State         `json:"final,omitempty"`
+	SameAsOrder0   bool           `json:"finalSameAsOrder0,omitempty"`
 	ConvergePasses int            `json:"convergePasses"`
 	FixpointWrites []Call         `json:"fixpointWrites,omitempty"`
 	FixpointCauses []string       `json:"fixpointCauses,omitempty"`
@@ -120,6 +121,20 @@ func (c *check) RunCase(seed int64, index int, tier string, env *run.Env) run.Ca
 	return RunScenario(sc, env)
 }
 
+// Replay re-runs the scenario stored in a replay file.
+func (c *check) Replay(path string, env *run.Env) run.CaseResult {
+	b, err := os.ReadFile(path)
+	if err != nil {
+		return run.CaseResult{Verdict: run.Inconclusive, Note: err.Error()}
+	}
+	var rp Replay
+	if err := json.Unmarshal(b, &rp); err != nil || rp.Scenario == nil {
+		return run.CaseResult{Verdict: run.Inconclusive, Note: "bad replay file"}
+	}
+	_ = os.MkdirAll(env.WorkDir, 0o755)
+	return RunScenario(rp.Scenario, env)
+}
+
 // RunScenario runs one scenario (also usable for replay).
 func RunScenario(sc *Scenario, env *run.Env) run.CaseResult {
 	res := run.CaseResult{Verdict: run.Held, Hash: hashScenario(sc)}
@@ -149,10 +164,10 @@ func RunScenario(sc *Scenario, env *run.Env) run.CaseResult {
 	// (b) order / repeat independence
 	for oi := 1; oi < len(runs); oi++ {
 		cr.inc("order_pairs_compared", 1)
-		fields, detail := diffStates(runs[0].Final, runs[oi].Final)
+		fields, details := diffStates(runs[0].Final, runs[oi].Final)
 		for _, f := range fields {
 			cr.viol("order-independence", "order-dependence:"+f+":"+sc.Kind,
-				"%s (%s): final state after order %v differs from order %v in %s: %s", sc.Kind, sc.Detail, runs[oi].Order, runs[0].Order, f, detail)
+				"%s (%s): final state after order %v (first value) differs from order %v (second value) in %s: %s", sc.Kind, sc.Detail, runs[0].Order, runs[oi].Order, f, details[f])
 		}
 		if !sameErrs(runs[0].Errors, runs[oi].Errors) {
 			cr.viol("order-independence", "order-dependence:reconcile-errors:"+sc.Kind,
@@ -190,6 +205,14 @@ func RunScenario(sc *Scenario, env *run.Env) run.CaseResult {
 		res.Verdict = run.Violated
 		res.Violations = cr.viols
 		if env != nil {
+			// keep replay files small: the final state of an order is stored only when it differs from order 0
+			k0 := runs[0].Final.key()
+			for i := 1; i < len(runs); i++ {
+				if runs[i].Final.key() == k0 {
+					runs[i].Final = nil
+					runs[i].SameAsOrder0 = true
+				}
+			}
 			res.Replay = env.SaveReplay(propID, sc.Seed, sc.Index, Replay{Scenario: sc, Runs: runs, ForeignLog: flog, Violations: cr.viols})
 		}
 	}
